@@ -19,10 +19,6 @@ def isNumV : V α → Bool
   | .num _ => true
   | _ => false
 
-def isIdentV : V α → Bool
-  | .ident _ => true
-  | _ => false
-
 /-- no operator has two numeric operands (nothing can fold) and no `+` has an identifier operand -/
 def pairFree : T α → Bool
   | .bin op a b =>
@@ -53,5 +49,19 @@ def opsV : V α → List Op
   | .paren v => opsV v
   | .bin op a b => opsV a ++ [op] ++ opsV b
   | _ => []
+
+/-- `combine` yields a number only by folding two numbers -/
+theorem combine_num (q : CalcQuirks) (showQ : Q α → String) (op : Op) (va vb : V α) (z : Q α)
+    (h : combine q showQ op va vb = .ok (.num z)) :
+    ∃ x y, va = .num x ∧ vb = .num y ∧ foldNum op x y = .val z := by
+  cases va <;> cases vb <;> simp only [combine] at h
+  case num.num x y =>
+    refine ⟨x, y, rfl, rfl, ?_⟩
+    cases hf : foldNum op x y <;> simp_all
+  all_goals (split at h <;> simp at h)
+
+theorem combine_fold (q : CalcQuirks) (showQ : Q α → String) (op : Op) (x y z : Q α)
+    (h : foldNum op x y = .val z) : combine q showQ op (.num x) (.num y) = .ok (.num z) := by
+  simp [combine, h]
 
 end Calc
